@@ -26,12 +26,20 @@ RULE = ("seeded inputs: arrays of 0..2000 (thorough: ..20000) events drawn as un
         "count == min(request, eligible) (all eligible for 0), no invalid value when excluded or "
         "when enough valid ones exist, same result when repeated after disturbing the global "
         "random state. Dataset level: get_downsampled_scatter(ret_mask=True) under random filters "
-        "and linear/log scales, and ds.filter.all with 'limit events'; request SEQUENCES on one "
-        "dataset (identical requests repeated after every returned x / y / mask was overwritten in "
-        "place, with and without active filters, ret_mask on/off, interleaved with filter changes "
-        "- many to a different event set of the same size (manual swap, shifted index range) - "
-        "and 'limit events'): every result must equal the undecorated pure function on the "
-        "currently specified selection and ds.filter.all that of a fresh dataset; a few LARGE inputs "
+        "and linear/log scales against the Lean model getScatter, which gets the UNSCALED columns, "
+        "the filter and the observed logarithms and does scaling, validity on the scaled values, "
+        "downsampling and mask composition itself (mask and returned values compared); "
+        "ds.filter.all with 'limit events' against limitSel (manual exclusions, then the limit); "
+        "request SEQUENCES on one dataset (identical requests repeated after every returned x / y / "
+        "mask was overwritten in place, with and without active filters, ret_mask on/off, "
+        "interleaved with filter changes - many to a different event set of the same size (manual "
+        "swap, shifted index range) - with 'limit events', and with changes of the FEATURE DATA "
+        "that involve no filter update: a plotted temporary feature is set again (all values new, "
+        "events become invalid, permutation, single entries), the configuration of a plotted "
+        "ancillary feature (crosstalk-corrected fluorescence) changes): every result must equal the "
+        "undecorated pure function on the currently specified selection of the CURRENT data, and "
+        "the stateless Lean model (every step is replayed on getScatter / limitSel), and "
+        "ds.filter.all that of a fresh dataset; a few LARGE inputs "
         "(65537, 70001, 100000 events) requested as sequences of near-identical twins (one value "
         "changed, two events swapped, an invalid value moved) through downsample_grid and "
         "get_downsampled_scatter, each compared with the undecorated function. distinct = distinct "
@@ -45,6 +53,9 @@ TRUSTED_BASE = [
     "counted as skipped_near_discontinuity)",
     "the compiled downsampling .so cannot be rebuilt in the sandbox; the .pyx text is interpreted "
     "by a regex de-cythoniser (harness/filt_util.py) and compared with the .so on every case",
+    "np.log: the model takes the observed float logarithms of the positive finite filtered "
+    "values as a table (driver op `lg`); a case where np.log would not be a function of the "
+    "value alone is excluded from the model comparison",
     "open findings F16 (request > len without remove_invalid: ValueError) and F17 (zero value "
     "range with 0 < request < #valid and #valid >= 4: IndexError); theorem grid_count_partial "
     "excludes them. The NaN -> uint32 cast behind F17 is platform dependent: observed here "
@@ -56,8 +67,18 @@ ASSUMPTIONS = ["np.random.choice(pool, k, replace=False) returns k distinct memb
 NOT_PROVED = ["grid_count (full statement without Guard) is false today: F16, F17 — proved as "
               "grid_count_partial under Guard, witnesses grid_F16_witness / grid_F17_witness and the "
               "class theorems grid_F16_class / grid_F17_class",
-              "log scale (np.log) and float rounding of norm(): correspondence only",
-              "Cache decorator of downsample_grid (property C17)"]
+              "the VALUES of np.log on positive finite numbers are a parameter `lg` of the model (all "
+              "theorems hold for every lg; the observed values are handed to the driver); which inputs "
+              "have a valid logarithm, and that validity is decided on the scaled values, is proved "
+              "(logV_valid_iff, scatter_removes_invalid_scaled). Float rounding of norm(): "
+              "correspondence only",
+              "the dataset level is proved for the stateless function getScatter(filter, columns, "
+              "request); that the real object has no hidden state (memo of masks, stale feature "
+              "data, the Cache decorator of property C17) is correspondence only: every step of the "
+              "request sequences is compared with the stateless model",
+              "scatter_count_partial is stated under Guard on the scaled filtered columns (F16/F17)",
+              "box / polygon / invalid filters below the event limit are C03's model (limitSel takes "
+              "their conjunction `qual` as given; bridge limitSel_eq_limitL)"]
 
 MODES = ("so", "src")
 
@@ -123,17 +144,65 @@ def pick_request(rng, n, v):
     return rng.choice(cands)
 
 
+TEMP_FEATS = {"x": "verif_c16_tx", "y": "verif_c16_ty"}
+# a cheap configuration-dependent ancillary feature: fl1_max_ctc = crosstalk-corrected fl1_max,
+# a linear combination of the stored columns fl1_max, fl2_max with coefficients from
+# config["calculation"] (changing them changes the data, their order and the grid cells)
+ANC_FEAT = "fl1_max_ctc"
+ANC_SETUP = [("calculation", "crosstalk fl21", 0.1), ("calculation", "crosstalk fl12", 0.0)]
+ANC_CHANGES = [("calculation", "crosstalk fl21", [0.0, 0.1, 0.5, 0.9, 2.5]),
+               ("calculation", "crosstalk fl12", [0.0, 0.2, 0.7])]
+
+
+def gen_column_change(rng, col):
+    """new data for a whole feature column (same length): a few / many / all entries replaced,
+    invalid entries appear, disappear and move"""
+    n = len(col)
+    new = list(col)
+    r = rng.random()
+    if r < 0.3:                                         # a re-computed feature: all values new
+        new = inject_invalid(rng, gen_values(rng, n, rng.choice(KINDS)), rng.choice([0, 0.1, 0.4]))
+    elif r < 0.6:                                       # some events can no longer be evaluated
+        for i in range(n):
+            if rng.random() < rng.choice([0.2, 0.5]):
+                new[i] = rng.choice([math.nan, math.nan, math.inf, -math.inf])
+    elif r < 0.8:                                       # permutation of the same values
+        rng.shuffle(new)
+    else:                                               # single entries
+        for _ in range(rng.randint(1, 3)):
+            new[rng.randrange(n)] = rng.choice([math.nan, rng.uniform(-100, 100), math.inf])
+    return new
+
+
 def gen_seq(rng, thorough):
     """a request sequence on ONE dataset: scatter requests (identical ones repeated, every returned
     array mutated in place afterwards), interleaved with filter changes – many of them to a
-    different event set of the same size – and 'limit events'"""
+    different event set of the same size – with 'limit events', and with changes of the FEATURE
+    DATA themselves that involve no filter update (a temporary feature that is set again, an
+    ancillary feature whose configuration changes)"""
     n = rng.choice([4, 6, 9, 14, 25, 40, 80 if thorough else 30])
     pa = rng.choice([0, 0, 0.1, 0.3])
+    # where the two plotted columns come from: "native" (stored feature), "temp" (temporary
+    # feature, may be set again at any time), "anc" (y only: an ancillary feature computed from
+    # stored columns and the configuration)
+    r = rng.random()
+    src = {"x": "native", "y": "native"}
+    if r < 0.30:
+        src[rng.choice(["x", "y"])] = "temp"
+    elif r < 0.38:
+        src = {"x": "temp", "y": "temp"}
+    elif r < 0.50:
+        src["y"] = "anc"
     a = inject_invalid(rng, gen_values(rng, n, rng.choice(KINDS)), pa)
     b = inject_invalid(rng, gen_values(rng, n, rng.choice(KINDS)), rng.choice([0, 0, 0.1]))
     if rng.random() < 0.5:
         a = [abs(x) + 0.5 if math.isfinite(x) else x for x in a]
         b = [abs(x) + 0.5 if math.isfinite(x) else x for x in b]
+    c = None
+    if src["y"] == "anc":      # second stored column the ancillary feature is computed from
+        c = inject_invalid(rng, gen_values(rng, n, rng.choice(KINDS)), rng.choice([0, 0.1, 0.3]))
+    cur = {"x": a, "y": b}
+    changeable = [ax for ax in ("x", "y") if src[ax] == "temp"]
     pool = []
     for _ in range(rng.randint(1, 3)):
         k = rng.choice([0, 1, max(n // 3, 1), max(n // 2, 1), max(n - 1, 1), n, n + 2,
@@ -145,12 +214,24 @@ def gen_seq(rng, thorough):
     steps = []
     quiet = rng.random() < 0.5          # start with a phase without any filter
     last = None
+    after_change = False
     for j in range(rng.randint(4, 14)):
         r = rng.random()
-        if r < 0.5 or (quiet and j < 3):
-            req = last if (last is not None and rng.random() < 0.5) else rng.choice(pool)
+        if r < 0.5 or (quiet and j < 3) or (after_change and r < 0.85):
+            req = last if (last is not None and rng.random() < (0.8 if after_change else 0.5)) \
+                else rng.choice(pool)
             last = req
+            after_change = False
             steps.append(["scatter"] + list(req) + [int(rng.random() < 0.7), int(rng.random() < 0.85)])
+        elif (changeable or src["y"] == "anc") and rng.random() < 0.4:
+            if changeable:
+                ax = rng.choice(changeable)
+                cur[ax] = gen_column_change(rng, cur[ax])
+                steps.append(["data", ax, [tok(x) for x in cur[ax]]])
+            else:
+                sec, key, vals = rng.choice(ANC_CHANGES)
+                steps.append(["calc", sec, key, rng.choice(vals)])
+            after_change = True
         elif r < 0.66:
             inc = [i for i in range(n) if manual[i]]
             exc = [i for i in range(n) if not manual[i]]
@@ -177,7 +258,12 @@ def gen_seq(rng, thorough):
         else:
             steps.append(["reset"])          # min/max keys survive reset_filter (O3)
             manual = [True] * n
-    return {"fn": "seq", "a": [tok(x) for x in a], "b": [tok(x) for x in b], "steps": steps}
+    case = {"fn": "seq", "a": [tok(x) for x in a], "b": [tok(x) for x in b], "steps": steps}
+    if src != {"x": "native", "y": "native"}:
+        case["src"] = src
+    if c is not None:
+        case["c"] = [tok(x) for x in c]
+    return case
 
 
 BIG_SIZES = [65537, 70001, 100000]
@@ -229,6 +315,34 @@ def big_arrays(case):
     return out
 
 
+_PURE_NOTE = []
+
+
+def pure_grid(mod=None):
+    """`downsample_grid` without its memo: the undecorated function if the decorator exposes it
+    (`.func`, `__wrapped__`); otherwise the public function called on an emptied memo (recorded
+    in _PURE_NOTE and reported as a NOTE – the comparison then is public API vs public API)"""
+    if mod is None:
+        common.import_dclab()
+        from dclab import downsampling as mod
+    f = mod.downsample_grid
+    for attr in ("func", "__wrapped__"):
+        g = getattr(f, attr, None)
+        if callable(g):
+            return g
+    if not _PURE_NOTE:
+        _PURE_NOTE.append("downsample_grid exposes no undecorated function (.func / __wrapped__): "
+                          "the reference is the public function on an emptied memo")
+
+    def call(*args, **kw):
+        _clear_memo()
+        try:
+            return f(*args, **kw)
+        finally:
+            _clear_memo()
+    return call
+
+
 def run_big(case, rec=None):
     """every request must equal the undecorated function on ITS input, whatever was asked before"""
     dclab = common.import_dclab()
@@ -240,7 +354,7 @@ def run_big(case, rec=None):
         variants = big_arrays(case)
         for vi, (a, b) in enumerate(variants):
             try:
-                _x, _y, want = so.downsample_grid.func(a.copy(), b.copy(), samples=k,
+                _x, _y, want = pure_grid(so)(a.copy(), b.copy(), samples=k,
                                                        remove_invalid=ri, ret_idx=True)
                 x, y, m = so.downsample_grid(a, b, samples=k, remove_invalid=ri, ret_idx=True)
             except Exception as e:  # noqa
@@ -258,7 +372,7 @@ def run_big(case, rec=None):
         for vi, (a, b) in enumerate(variants[:3]):
             try:
                 ds = dclab.new_dataset({"area_um": a, "deform": b})
-                _x, _y, want = so.downsample_grid.func(a.copy(), b.copy(), samples=k,
+                _x, _y, want = pure_grid(so)(a.copy(), b.copy(), samples=k,
                                                        remove_invalid=ri, ret_idx=True)
                 x, y, m = ds.get_downsampled_scatter(downsample=k, remove_invalid=ri, ret_mask=True)
             except Exception as e:  # noqa
@@ -345,11 +459,11 @@ def get_fns(mode):
     common.import_dclab()
     from dclab import downsampling as so
     if mode == "so":
-        return so.downsample_rand, so.downsample_grid, so.downsample_grid.func
+        return so.downsample_rand, so.downsample_grid, pure_grid(so)
     mod, problem = depyx_downsampling()
     if problem:
         raise RuntimeError(problem)
-    return mod.downsample_rand, mod.downsample_grid.func, mod.downsample_grid.func
+    return mod.downsample_rand, pure_grid(mod), pure_grid(mod)
 
 
 def run_low(case, mode, rec=None):
@@ -433,7 +547,6 @@ def make_ds(case):
 
 def run_ds(case, rec=None):
     """`get_downsampled_scatter` / `limit events` on the real dataset class"""
-    from dclab.rtdc_dataset import RTDCBase
     fails = []
     k, ri = case["k"], case["ri"]
     with np.errstate(all="ignore"):
@@ -464,9 +577,11 @@ def run_ds(case, rec=None):
                 fails.append("limit events selected an event that does not qualify")
             if not np.array_equal(lim, lim2):
                 fails.append("limit events is not reproducible")
-            return ("ok " + bits(lim)).strip(), fails, {"all": allm}
-        xs = RTDCBase._apply_scale(a, case["xs"], "area_um")
-        ys = RTDCBase._apply_scale(b, case["ys"], "deform")
+            man = np.ones(n, dtype=bool)
+            man[case["excl"]] = False
+            return ("ok " + bits(lim)).strip(), fails, {"all": allm, "manual": man}
+        xs = apply_scale(a, case["xs"])
+        ys = apply_scale(b, case["ys"])
         try:
             if rec is not None:
                 with rec:
@@ -500,7 +615,46 @@ def run_ds(case, rec=None):
             yscale=case["ys"], remove_invalid=ri, ret_mask=True)
         if not np.array_equal(m, m2):
             fails.append("second call gives a different selection")
-        return ("ok " + bits(m)).strip(), fails, {"all": allm, "xs": xs, "ys": ys}
+        return ("ok " + bits(m)).strip(), fails, {"all": allm, "xs": xs, "ys": ys,
+                                                  "out": scat_answer((x, y, m), True)}
+
+
+def scat_lines(allm, xcol, ycol, xsc, ysc, k, ri, ret_mask):
+    """driver lines for `getScatter` on the UNSCALED dataset columns: a table of the observed
+    logarithms of the filtered values (`lg`), then the request.  Returns (lines, comparable):
+    not comparable when the float grid cells of the scaled valid data differ from the exact
+    rational cells (rounding inside norm() is outside the model) or np.log is not a function
+    of the value alone on this input."""
+    table = {}
+    okay = True
+    scaled = []
+    with np.errstate(all="ignore"):
+        for colv, sc in ((xcol, xsc), (ycol, ysc)):
+            raw = np.asarray(colv, dtype=np.float64)[allm]
+            if sc == "log":
+                lg = np.log(raw)
+                for q, l in zip(raw.tolist(), lg.tolist()):
+                    if q > 0 and math.isfinite(q):
+                        if table.setdefault(tok(q), tok(l)) != tok(l):
+                            okay = False
+                scaled.append(lg)
+            else:
+                scaled.append(raw)
+    good = valid(scaled[0]) & valid(scaled[1])
+    if 0 < k < int(good.sum()):
+        okay = okay and cells_exact_agree(scaled[0][good]) and cells_exact_agree(scaled[1][good])
+    lines = ["lg " + " ".join(q + " " + l for q, l in sorted(table.items()))]
+    lines.append(f"scat {k} {int(bool(ri))} {int(bool(ret_mask))} {int(xsc == 'log')} "
+                 f"{int(ysc == 'log')} {bits(allm) or '-'} {len(xcol)} "
+                 + " ".join(tok(v) for v in xcol) + " " + " ".join(tok(v) for v in ycol))
+    return lines, okay
+
+
+def scat_answer(out, ret_mask):
+    """what the real `get_downsampled_scatter` returned, in the driver's answer format"""
+    m = bits(out[2]) if (ret_mask and len(out) > 2) else ""
+    return ("ok " + (m or "-") + " | " + " ".join(tok(v) for v in out[0]) + " | "
+            + " ".join(tok(v) for v in out[1])).strip()
 
 
 def _clear_memo():
@@ -518,26 +672,83 @@ def _same(x, y):
     return x.shape == y.shape and x.dtype == y.dtype and x.tobytes() == y.tobytes()
 
 
+def apply_scale(arr, scale):
+    """what `xscale` / `yscale` = "log" mean: the natural logarithm of the values (own
+    implementation – the private helper of RTDCBase is not consulted)"""
+    arr = np.asarray(arr, dtype=np.float64)
+    if scale == "log":
+        with np.errstate(all="ignore"):
+            return np.log(arr)
+    return arr
+
+
+def _temp_features_ready():
+    """register the two temporary feature names once per process (public API)"""
+    dclab = common.import_dclab()
+    for name in TEMP_FEATS.values():
+        if not dclab.definitions.feature_exists(name):
+            dclab.register_temporary_feature(name)
+
+
+def _seq_dataset(case, a, b):
+    dclab = common.import_dclab()
+    if "c" in case:      # y = ancillary feature of the stored columns fl1_max (= b), fl2_max (= c)
+        c = np.array([untok(t) for t in case["c"]], dtype=np.float64)
+        return dclab.new_dataset({"area_um": a.copy(), "deform": b.copy(), "fl1_max": b.copy(),
+                                  "fl2_max": c})
+    return dclab.new_dataset({"area_um": a.copy(), "deform": b.copy()})
+
+
+def _configure(ds, case, calc):
+    """configuration of a sequence dataset that does not belong to the filter"""
+    for sec, key, val in ANC_SETUP:
+        ds.config[sec][key] = val
+    for (sec, key), val in calc.items():
+        ds.config[sec][key] = val
+
+
 def run_seq(case, rec=None):
     """request sequence on one dataset; every result must equal that of the pure functions on the
-    currently specified selection, and that of a fresh dataset configured identically"""
+    currently specified selection of the CURRENT feature data, and that of a fresh dataset
+    configured identically"""
     dclab = common.import_dclab()
-    from dclab.rtdc_dataset import RTDCBase
     from dclab import downsampling as so
     _clear_memo()
     fails = []
     a = np.array([untok(t) for t in case["a"]], dtype=np.float64)
     b = np.array([untok(t) for t in case["b"]], dtype=np.float64)
     n = len(a)
+    src = case.get("src") or {"x": "native", "y": "native"}
+    names = {"x": "area_um", "y": "deform"}
+    col = {"x": a, "y": b}                 # current data of the two plotted columns
+    calc = {}                              # changed configuration keys (ancillary feature)
     trace = []
+    msteps = []        # (driver lines, the implementation's answer in the driver's format, label)
     with np.errstate(all="ignore"):
         try:
-            ds = dclab.new_dataset({"area_um": a.copy(), "deform": b.copy()})
+            ds = _seq_dataset(case, a, b)
+            for ax in ("x", "y"):
+                if src[ax] == "temp":
+                    _temp_features_ready()
+                    names[ax] = TEMP_FEATS[ax]
+                    dclab.set_temporary_feature(ds, names[ax], col[ax].copy())
+            if src["y"] == "anc" and "c" in case:
+                names["y"] = ANC_FEAT
+                _configure(ds, case, calc)
         except Exception as e:  # noqa
-            return "setup-" + common.err_class(e), [f"dataset setup raised {e!r}"[:120]]
+            return "setup-" + common.err_class(e), [f"dataset setup raised {e!r}"[:120]], []
         manual = np.ones(n, dtype=bool)
         rng_idx, limit = None, 0
         index = np.arange(1, n + 1)
+
+        def current(ax):
+            """the data the plotted column has NOW (for the ancillary feature: what a fresh
+            dataset with the same stored columns and configuration computes)"""
+            if src[ax] != "anc" or "c" not in case:
+                return col[ax]
+            ds2 = _seq_dataset(case, a, b)
+            _configure(ds2, case, calc)
+            return np.array(ds2[ANC_FEAT], dtype=np.float64)
 
         def expected_all():
             pre = manual.copy()
@@ -567,11 +778,11 @@ def run_seq(case, rec=None):
                 if kind == "scatter":
                     _k, k, ri, xsc, ysc, ret_mask, mutate = st
                     allm, _pre = expected_all()
-                    xf, yf = a[allm], b[allm]
-                    xs = RTDCBase._apply_scale(xf, xsc, "area_um")
-                    ys = RTDCBase._apply_scale(yf, ysc, "deform")
+                    xcol, ycol = current("x"), current("y")
+                    xs = apply_scale(xcol[allm], xsc)
+                    ys = apply_scale(ycol[allm], ysc)
                     try:        # the pure function (undecorated, recomputed)
-                        _x, _y, idx = so.downsample_grid.func(xs.copy(), ys.copy(), samples=k,
+                        _x, _y, idx = pure_grid(so)(xs.copy(), ys.copy(), samples=k,
                                                               remove_invalid=bool(ri), ret_idx=True)
                         want = "ok"
                     except Exception as e:  # noqa
@@ -580,16 +791,23 @@ def run_seq(case, rec=None):
                         if rec is not None:
                             with rec:
                                 out = ds.get_downsampled_scatter(
-                                    xax="area_um", yax="deform", downsample=k, xscale=xsc, yscale=ysc,
-                                    remove_invalid=bool(ri), ret_mask=bool(ret_mask))
+                                    xax=names["x"], yax=names["y"], downsample=k, xscale=xsc,
+                                    yscale=ysc, remove_invalid=bool(ri), ret_mask=bool(ret_mask))
                         else:
                             out = ds.get_downsampled_scatter(
-                                xax="area_um", yax="deform", downsample=k, xscale=xsc, yscale=ysc,
-                                remove_invalid=bool(ri), ret_mask=bool(ret_mask))
+                                xax=names["x"], yax=names["y"], downsample=k, xscale=xsc,
+                                yscale=ysc, remove_invalid=bool(ri), ret_mask=bool(ret_mask))
                         got = "ok"
                     except Exception as e:  # noqa
                         got = common.err_class(e)
                     trace.append(got)
+                    try:        # the same request to the Lean model (stateless `getScatter`)
+                        ml, comparable = scat_lines(allm, xcol, ycol, xsc, ysc, k, ri, ret_mask)
+                        if comparable and (got != "ok" or want == "ok"):
+                            msteps.append((ml, scat_answer(out, ret_mask) if got == "ok" else got,
+                                           f"step {si} {st[:7]}"))
+                    except Exception:  # noqa  (the model comparison is optional)
+                        pass
                     if got == "ok" and want != "ok":
                         # the pure function raises (open findings F16/F17) but the dataset level
                         # answers: acceptable iff the answer has the count the property demands
@@ -606,9 +824,13 @@ def run_seq(case, rec=None):
                         continue
                     mask = np.zeros(n, dtype=bool)
                     mask[np.where(allm)[0]] = np.asarray(idx, dtype=bool)
-                    if not _same(out[0], a[mask]) or not _same(out[1], b[mask]):
-                        fails.append(f"step {si} {st}: returned x, y are not the features at the "
-                                     f"selection of the pure function ({len(out[0])} vs {int(mask.sum())} events)")
+                    if not _same(out[0], xcol[mask]) or not _same(out[1], ycol[mask]):
+                        fails.append(f"step {si} {st[:7]}: returned x, y are not the current feature "
+                                     f"data at the selection of the pure function "
+                                     f"({len(out[0])} vs {int(mask.sum())} events)")
+                    if ri and not (valid(apply_scale(out[0], xsc)) & valid(apply_scale(out[1], ysc))).all():
+                        fails.append(f"step {si} {st[:7]}: invalid (scaled) value returned although "
+                                     f"remove_invalid=True")
                     if ret_mask and not _same(out[2], mask):
                         fails.append(f"step {si} {st}: returned mask {bits(out[2])[:60]} differs from the "
                                      f"mask of the pure function {bits(mask)[:60]}")
@@ -621,6 +843,18 @@ def run_seq(case, rec=None):
                                     arr[...] = -7.0
                             except ValueError:
                                 pass    # read-only results are fine
+                    continue
+                if kind == "data":           # the feature data change; NO filter update follows
+                    if src[st[1]] == "temp" and len(st[2]) == n:
+                        col[st[1]] = np.array([untok(t) for t in st[2]], dtype=np.float64)
+                        dclab.set_temporary_feature(ds, names[st[1]], col[st[1]].copy())
+                    trace.append("data")
+                    continue
+                if kind == "calc":           # configuration of an ancillary feature changes
+                    if src["y"] == "anc" and "c" in case:
+                        calc[(st[1], st[2])] = st[3]
+                        ds.config[st[1]][st[2]] = st[3]
+                    trace.append("calc")
                     continue
                 if kind == "manual":
                     for i, bnew in st[1]:
@@ -649,6 +883,11 @@ def run_seq(case, rec=None):
                 got_all = np.array(ds.filter.all, dtype=bool)
                 exp_all, pre = expected_all()
                 trace.append(bits(got_all))
+                qual = np.ones(n, dtype=bool)
+                if rng_idx is not None:
+                    qual = (index >= rng_idx[0]) & (index <= rng_idx[1])
+                msteps.append(([f"limit {limit} {bits(qual) or '-'} {bits(manual) or '-'}"],
+                               ("ok " + (bits(got_all) or "-")), f"step {si} {st[:3]} filter.all"))
                 if not np.array_equal(got_all, exp_all):
                     what = "limit events" if (limit > 0 and int(pre.sum()) > limit) else "filter"
                     fails.append(f"step {si} {st}: ds.filter.all = {bits(got_all)[:60]} but the {what} "
@@ -662,7 +901,7 @@ def run_seq(case, rec=None):
             except Exception as e:  # noqa
                 fails.append(f"step {si} {st}: raised {e!r}"[:200])
                 break
-    return "ok " + str(len(trace)), fails
+    return "ok " + str(len(trace)), fails, msteps
 
 
 def classify(case, aux=None):
@@ -671,7 +910,8 @@ def classify(case, aux=None):
         return None, True, True
     if case["fn"] == "seq":
         reqs = [tuple(s[1:5]) for s in case["steps"] if s[0] == "scatter"]
-        return None, len(reqs) != len(set(reqs)) or any(s[0] == "limit" for s in case["steps"]), True
+        return None, len(reqs) != len(set(reqs)) or any(s[0] in ("limit", "data", "calc")
+                                                        for s in case["steps"]), True
     a = np.array([untok(t) for t in case["a"]], dtype=np.float64)
     k, ri = case["k"], case["ri"]
     if case["fn"] == "rand":
@@ -700,17 +940,22 @@ def classify(case, aux=None):
 
 
 def model_line(case, aux=None):
+    """driver lines of one case; the LAST line is the one whose answer is compared"""
     k, ri = case["k"], int(case["ri"])
     if case["fn"] == "rand":
-        return f"rand {k} {ri} " + " ".join(case["a"])
+        return [f"rand {k} {ri} " + " ".join(case["a"])]
     if case["fn"] == "grid":
-        return f"grid {k} {ri} {len(case['a'])} " + " ".join(case["a"]) + " " + " ".join(case["b"])
+        return [f"grid {k} {ri} {len(case['a'])} " + " ".join(case["a"]) + " " + " ".join(case["b"])]
     if case["fn"] == "ds":
-        return (f"ds {k} {ri} {bits(aux['all']) or '-'} {len(case['a'])} "
-                + " ".join(tok(x) for x in aux["xs"]) + " " + " ".join(tok(x) for x in aux["ys"]))
-    # limit: downsample_rand on an all-True array of the qualifying events
-    q = int(aux["all"].sum())
-    return f"rand {k} 0 " + " ".join(["1"] * q)
+        # `getScatter`: the model filters, scales (observed logarithms), decides validity on the
+        # scaled values, downsamples and composes the mask itself
+        a = [untok(t) for t in case["a"]]
+        b = [untok(t) for t in case["b"]]
+        lines, okay = scat_lines(aux["all"], a, b, case["xs"], case["ys"], k, ri, True)
+        return lines if okay else None
+    # limit: `limitSel` = manual exclusions first, then downsample_rand on the qualifying events
+    n = len(aux["all"])
+    return [f"limit {k} {bits(np.ones(n, dtype=bool)) or '-'} {bits(aux['manual']) or '-'}"]
 
 
 def model_answer(case, line, aux=None):
@@ -719,10 +964,13 @@ def model_answer(case, line, aux=None):
     if case["fn"] == "rand":
         return " ".join(ans.split(" ")[:2]).strip() if ans.startswith("ok") else ans
     if case["fn"] == "limit" and ans.startswith("ok"):
-        sub = [c == "1" for c in (ans.split(" ")[1] if len(ans.split(" ")) > 1 else "")]
-        full = np.zeros(len(aux["all"]), dtype=bool)
-        full[np.where(aux["all"])[0]] = sub
-        return ("ok " + bits(full)).strip()
+        return ans.replace("ok -", "ok").strip()
+    if case["fn"] == "ds" and ans.startswith("ok") and aux and "out" in aux:
+        # mask AND returned values must be those of the implementation
+        if ans == aux["out"]:
+            m = ans.split(" ")[1]
+            return ("ok " + ("" if m == "-" else m)).strip()
+        return "model:" + ans
     return ans
 
 
@@ -731,7 +979,9 @@ def evaluate(case, rec=None):
     res = {}
     aux = None
     if case["fn"] == "seq":
-        res["so"] = run_seq(case, rec)
+        ans, fails, msteps = run_seq(case, rec)
+        res["so"] = (ans, fails)
+        res["msteps"] = msteps
     elif case["fn"] == "big":
         res["so"] = run_big(case, rec)
     elif case["fn"] in ("ds", "limit"):
@@ -859,6 +1109,7 @@ def run(ctx):
     rec = ChoiceRecorder()
     sent = set()
     lines, slots = [], []          # slots[i] = index of the answer line of case i (or None)
+    seq_slots = {}                 # sequences: id(res) -> [(answer line, implementation's answer, label)]
     results = []
     for c in cases:
         res = evaluate(c, rec)
@@ -867,12 +1118,20 @@ def run(ctx):
         use_model = ctx.lean_ok and (agree or cls is not None) and len(c["a"]) <= 3000 \
             and not res["so"][0].startswith("setup-") \
             and (c["fn"] in ("rand", "grid") or res["aux"] is not None)
-        if use_model:
+        ml = model_line(c, res["aux"]) if use_model else None
+        if ml:
             lines += rec.lines(sent)
-            lines.append(model_line(c, res["aux"]))
+            lines += ml
             slots.append(len(lines) - 1)
         else:
             slots.append(None)
+        if c["fn"] == "seq" and ctx.lean_ok and res.get("msteps"):
+            lines += rec.lines(sent)
+            sl = []
+            for ml, want, label in res["msteps"]:
+                lines += ml
+                sl.append((len(lines) - 1, want, label))
+            seq_slots[id(res)] = sl
     for b in rec.bad:
         ctx.violation("spec", f"np.random.choice: {b}", {"correspondence": "ChoiceOK"})
     model_out = ctx.lean("C16", lines) if (ctx.lean_ok and lines) else []
@@ -911,6 +1170,13 @@ def run(ctx):
         if "src" in res and res["src"][0] not in (ans_so, "src-unavailable"):
             mirror_bad.append((c, f"downsampling.pyx text answers '{res['src'][0][:40]}', "
                                   f"the compiled module '{ans_so[:40]}'", ".pyx text vs .so"))
+        for sidx, want, label in seq_slots.get(id(res), []):
+            ctx.stat("seq_model_steps")
+            m_ans = model_out[sidx].strip()
+            if m_ans != want:
+                mirror_bad.append((c, f"seq {label}: impl '{want[:50]}' model '{m_ans[:50]}'",
+                                   "Drive/C16.lean (getScatter / limitSel) vs the dataset level"))
+                break
         if slot is not None:
             m_ans = model_answer(c, model_out[slot], res["aux"])
             if m_ans != ans_so:
@@ -938,6 +1204,8 @@ def run(ctx):
             ctx.violation("mirror", f"downsampling differs from its model/source in "
                                     f"{len(mirror_bad)} cases, first: {text}",
                           {"correspondence": corr, "case": c})
+    for t in _PURE_NOTE:
+        ctx.note(t)
     known_checks(ctx)
 
 
